@@ -63,3 +63,25 @@ package commands
 //@     before call graph.NewResolveCheckRequest args p : assert p.Consistency == params.Consistency && p.StoreID == params.StoreID && p.Context == params.Context && (params.Consistency != openfgav1.ConsistencyPreference_HIGHER_CONSISTENCY ==> detCalled && p.LastCacheInvalidationTime == detTime)
 //@     after call graph.NewResolveCheckRequest returning r, e : reqMade = r
 //@     before call graph.CheckResolver.ResolveCheck args _, _, r : assert r == reqMade
+
+// ------------------------------------------------------------------ ReadChanges (C14): token / type-filter binding
+// A non-empty token is used only if it decodes, deserializes, and was issued for this request's type filter; the
+// position handed to the backend is the token's; the token returned is issued for this request's type.
+//@ func (*ReadChangesQuery).Execute(q, ctx, req) (res, err)
+//@   property C14
+//@   option nosafety
+//@   option stable req
+//@   monitor tokenBinding
+//@     ghost decoded = false
+//@     ghost tokenStr string = ""
+//@     ghost desCalled = false
+//@     ghost desErr error = nil
+//@     ghost desUlid string = ""
+//@     ghost desType string = ""
+//@     ghost contUlid string = ""
+//@     after call encoder.Encoder.Decode returning b, e : decoded = e == nil ; tokenStr = bytes(b)
+//@     before call encoder.ContinuationTokenSerializer.Deserialize args _, t : assert decoded && t == tokenStr && t != ""
+//@     after call encoder.ContinuationTokenSerializer.Deserialize returning u, t, e : desCalled = true ; desErr = e ; desUlid = u ; desType = t
+//@     before call storage.ChangelogBackend.ReadChanges args _, _, st, f, o : assert decoded && st == req.GetStoreId() && f.ObjectType == req.GetType() && (tokenStr != "" ==> desCalled && desErr == nil && desType == req.GetType() && o.Pagination.From == desUlid)
+//@     after call storage.ChangelogBackend.ReadChanges returning c, u, e : contUlid = u
+//@     before call encoder.ContinuationTokenSerializer.Serialize args _, u, t : assert u == contUlid && t == req.GetType()
